@@ -333,7 +333,12 @@ pub fn gen_case_full(c: &mut Chooser, op: &str, prop: &str, small: bool, deep: b
     // wide fan-ins: half of the time every member is of the same kind (e.g. all answer inside the
     // Pull, so that one member's end starts the next from inside the previous one's, dozens deep)
     let many = wide && matches!(topo, Topo::Merge(_) | Topo::Concat(_) | Topo::Flatten(_) | Topo::FlattenRepeat(_));
-    let homogeneous: Option<Mode> = if many && c.chance(1, 2) { Some(ALL_MODES[c.choose(3)]) } else { None };
+    let homogeneous: Option<Mode> = if many && c.chance(1, 2) {
+        // (the C14 environment has pullable upstreams only)
+        Some(if credit { [Mode::PullSync, Mode::PullDeferred][c.choose(2)] } else { ALL_MODES[c.choose(3)] })
+    } else {
+        None
+    };
     let fins: &[Fin] = if prop == "C05" { &[Fin::End, Fin::Err, Fin::Err, Fin::Never] } else { ALL_FINS };
     for i in 0..n_puppets {
         let modes: &[Mode] = match &topo {
